@@ -193,7 +193,7 @@ theorem shiftOne_run {env : Env} (hT : TableOk env) {F : Nat} {tk : Tok} {LF PF1
     injection hok with hok
     injection hok with e1 e2
     subst e2
-    obtain ⟨f, u, hh, ⟨e, ed, w1, w2, w3, w4⟩, hn, hed⟩ := addSolution_run (ginv_poss hI.ginv) hI.gu tk hv.span hhv hhd hvf hF _ rfl
+    obtain ⟨f, u, hh, ⟨e, ed, w1, w2, w3, w4⟩, hn, hed⟩ := addSolution_run (ginv_poss hI.ginv) hI.gu tk tk.span hhv hhd hvf hF _ rfl
     rw [e1] at f u hh w1 hn hed
     refine ⟨hg', hI.frame.trans f, u, ?_, hI.keys, ?_, ?_, ?_⟩
     · intro k v' hkv
@@ -203,7 +203,7 @@ theorem shiftOne_run {env : Env} (hT : TableOk env) {F : Nat} {tk : Tok} {LF PF1
     · intro y hy
       rcases List.mem_cons.mp hy with heq | hr
       · rw [heq]
-        exact ⟨v, hv, e, ed, g.nodes.size, hv.span, by rw [hh]; exact hhv, hvs, hvf, w1, w2, w3, w4, hn⟩
+        exact ⟨v, hv, e, ed, g.nodes.size, tk.span, by rw [hh]; exact hhv, hvs, hvf, w1, w2, w3, w4, hn⟩
       · exact (hI.shifted y hr).frame f
     · intro e' ed' hs he' hhs hsl
       rw [hh] at hhs ⊢
